@@ -1,2 +1,2 @@
--- stub: replaced by the family's driver
-def main : IO Unit := IO.println "family graph: no driver yet"
+import PrimitivModel.Driver.GraphDrv
+def main : IO Unit := Primitiv.Drv.GraphDrv.main
